@@ -87,8 +87,12 @@ def _kernel_fingerprint(f):
         recv_calls = list(rd.derives(c.func.value).calls()) + [x for x in ast.walk(c.func.value) if isinstance(x, ast.Call)]
         if any(x is g for g in gath for x in recv_calls) and from_oov(c.args[0]):
             steps.append(f"fill({u(c.args[1])})")
+    # (the reductions of the gathered scores - a sum that counts lengths is not one of them)
+    def _from_gather(e):
+        cs = list(rd.derives(e).calls()) + [x for x in ast.walk(e) if isinstance(x, ast.Call)]
+        return any(x is g for g in gath for x in cs)
     red = [c.func.attr for c in calls if isinstance(c.func, ast.Attribute) and c.func.attr in ("sum", "prod", "mean")
-           and not (isinstance(c.func.value, ast.Call) and "to(" in u(c.func.value))]
+           and (_from_gather(c.func.value) if gath else not (isinstance(c.func.value, ast.Call) and "to(" in u(c.func.value)))]
     return steps, red
 
 
@@ -466,8 +470,22 @@ def _log_prob_min_rank(ctx: Ctx, dist, lp, rel: str):
             continue
         k = None
         for t, pol in guards_of(pm, n):
-            if u(t) == "len(self.batch_shape)":
-                k = 1 if pol else 0
+            # a test on whether there is a batch shape, however it is spelled (`len(self.batch_shape)`, a flag holding it, `!= 0` ...):
+            # evaluated for a batch shape of length 0 and 1
+            try:
+                from sa.inline import Inliner as _InlB
+                from sa.inteval import NotEvaluable as _NEB, int_eval as _ieb
+                te_ = _InlB(lp.node, ReachingDefs(lp.node)).expand(t)
+
+                def _lf(x, k_):
+                    if isinstance(x, ast.Call) and call_name(x) == "len" and len(x.args) == 1 and u(x.args[0]) == "self.batch_shape":
+                        return k_
+                    return None
+                v0, v1 = bool(_ieb(te_, {"__leaf__": lambda x: _lf(x, 0)})), bool(_ieb(te_, {"__leaf__": lambda x: _lf(x, 1)}))
+            except Exception:
+                continue
+            if v0 != v1:
+                k = (1 if v1 else 0) if pol else (0 if v1 else 1)
         if k is None:
             continue
         n_sites += 1
